@@ -88,6 +88,9 @@ pub const KEYS: &[(&str, &str, &str)] = &[
     ("nasty", "nasty.comment_script", "<!--<script> still inside </script --> [{L}]"),
     // a unit whose table is empty for en and de (only an interpolation), non-empty for the other locales
     ("bare", "bare.only", "7{BARE}"),
+    // a namespace whose name is not an identifier: the unit id carries the name, not the identifier
+    ("side-bar", "side-bar.title", "side.title[{L}]"),
+    ("side-bar", "side-bar.entry", "side.entry[{L}] 4"),
 ];
 
 fn expected_text(key: usize, locale: &str) -> String {
@@ -116,7 +119,12 @@ fn text_node(i18n: leptos_i18n::I18nContext<Locale>, key: usize, n: usize) -> An
         9 => view! { <p data-n=id>{t!(i18n, nasty.amp)}</p> }.into_any(),
         10 => view! { <p data-n=id>{t!(i18n, nasty.script_upper)}</p> }.into_any(),
         11 => view! { <p data-n=id>{t!(i18n, nasty.comment_script)}</p> }.into_any(),
-        _ => view! { <p data-n=id>{t!(i18n, bare.only, x = "7")}</p> }.into_any(),
+        12 => view! { <p data-n=id>{t!(i18n, bare.only, x = "7")}</p> }.into_any(),
+        13 => view! { <p data-n=id>{t!(i18n, side_bar.title)}</p> }.into_any(),
+        _ => {
+            let scoped = scope_i18n!(i18n, side_bar);
+            view! { <p data-n=id>{t!(scoped, entry, n = 4)}</p> }.into_any()
+        }
     }
 }
 
@@ -133,10 +141,10 @@ impl Node {
     fn to_json(&self) -> Value {
         match self {
             Node::Text { key } => json!({"t": "text", "key": KEYS[*key % KEYS.len()].1}),
-            Node::Set { l } => json!({"t": "set", "l": LOCS[*l % 5]}),
+            Node::Set { l } => json!({"t": "set", "l": LOCS[*l % LOCS.len()]}),
             Node::Sub { init, keys, inner } => json!({
-                "t": "sub", "init": init.map(|l| LOCS[l % 5]), "keys": keys.iter().map(|k| KEYS[*k % KEYS.len()].1).collect::<Vec<_>>(),
-                "inner": inner.as_ref().map(|(i, ks)| json!({"init": i.map(|l| LOCS[l % 5]), "keys": ks.iter().map(|k| KEYS[*k % KEYS.len()].1).collect::<Vec<_>>()})),
+                "t": "sub", "init": init.map(|l| LOCS[l % LOCS.len()]), "keys": keys.iter().map(|k| KEYS[*k % KEYS.len()].1).collect::<Vec<_>>(),
+                "inner": inner.as_ref().map(|(i, ks)| json!({"init": i.map(|l| LOCS[l % LOCS.len()]), "keys": ks.iter().map(|k| KEYS[*k % KEYS.len()].1).collect::<Vec<_>>()})),
             }),
             Node::Suspense { gate, key } => json!({"t": "suspense", "gate": gate, "key": KEYS[*key % KEYS.len()].1}),
         }
@@ -176,6 +184,9 @@ pub struct Request {
     /// a hand-written integration: the page is built in one step and rendered with `to_html()` in a later one
     /// (other requests may be built or rendered in between)
     pub manual: bool,
+    /// the provider's first child is built lazily (`{move || ..}`, `<Show>`, a route outlet) and sets this locale
+    /// while it is being rendered, after the whole page was constructed
+    pub lazy_set: Option<usize>,
 }
 
 /// (namespace, label, expected text template) of the run-once accesses
@@ -213,7 +224,7 @@ impl Plan {
         json!({
             "requests": self.requests.iter().map(|r| json!({
                 "cookie": r.cookie, "accept": r.accept, "in_order": r.in_order, "start_at": r.start_at, "drop_after_chunks": r.drop_after_chunks,
-                "provider": r.provider, "under_suspense": r.under_suspense, "eager": r.eager.map(|(k, g)| json!([k, g])), "manual": r.manual,
+                "provider": r.provider, "under_suspense": r.under_suspense, "eager": r.eager.map(|(k, g)| json!([k, g])), "manual": r.manual, "lazy_set": r.lazy_set.map(|l| LOCS[l % LOCS.len()]),
                 "page": r.page.iter().map(|n| n.to_json()).collect::<Vec<_>>(),
             })).collect::<Vec<_>>(),
             "gates": self.gates, "policy": self.policy.name(), "schedule": schedule,
@@ -234,6 +245,7 @@ impl Plan {
                 under_suspense: r["under_suspense"].as_bool().unwrap_or(false),
                 eager: r["eager"].as_array().map(|a| (a[0].as_u64().unwrap_or(0) as usize, a[1].as_u64().unwrap_or(0) as usize)),
                 manual: r["manual"].as_bool().unwrap_or(false),
+                lazy_set: LOCS.iter().position(|k| Some(*k) == r["lazy_set"].as_str()),
             })
             .collect();
         let gates = v["gates"].as_array().map(|a| a.iter().map(|g| g.as_u64()).collect()).unwrap_or_default();
@@ -244,7 +256,7 @@ impl Plan {
 
 pub fn generate(rng: &mut Rng) -> Plan {
     let n_req = *rng.pick(&[1usize, 1, 2, 2, 3]);
-    let n_gates = rng.below(5);
+    let n_gates = rng.below(LOCS.len());
     let gates: Vec<Option<u64>> = (0..n_gates).map(|_| if rng.chance(1, 10) { None } else { Some(rng.below(60) as u64) }).collect();
     let mut requests = vec![];
     for _ in 0..n_req {
@@ -253,18 +265,18 @@ pub fn generate(rng: &mut Rng) -> Plan {
         let cname = if provider == 2 && rng.chance(3, 4) { "site_locale" } else { "i18n_pref_locale" };
         let cookie = match rng.below(4) {
             0 => String::new(),
-            _ => format!("{cname}={}", rng.pick(&["en", "fr", "fr-CA", "de", "pt-BR", "xx"])),
+            _ => format!("{cname}={}", rng.pick(&["en", "fr", "fr-CA", "de", "pt-br", "zh", "zh-Hant", "ar", "pt-BR", "xx"])),
         };
-        let accept = rng.pick(&["", "fr", "de,en;q=0.5", "pt-BR", "fr-CA,fr;q=0.9", "es"]).to_string();
+        let accept = rng.pick(&["", "fr", "de,en;q=0.5", "pt-BR", "fr-CA,fr;q=0.9", "es", "zh-Hant-TW", "zh-CN", "ar-EG,en;q=0.5"]).to_string();
         let n_nodes = 1 + rng.below(7);
         let mut page = vec![];
         for _ in 0..n_nodes {
             let node = match rng.below(10) {
-                0 => Node::Set { l: rng.below(5) },
+                0 => Node::Set { l: rng.below(LOCS.len()) },
                 1 | 2 => Node::Sub {
-                    init: if rng.chance(2, 3) { Some(rng.below(5)) } else { None },
+                    init: if rng.chance(2, 3) { Some(rng.below(LOCS.len())) } else { None },
                     keys: (0..1 + rng.below(2)).map(|_| rng.below(KEYS.len())).collect(),
-                    inner: if rng.chance(1, 3) { Some((if rng.chance(1, 3) { Some(rng.below(5)) } else { None }, vec![rng.below(KEYS.len())])) } else { None },
+                    inner: if rng.chance(1, 3) { Some((if rng.chance(1, 3) { Some(rng.below(LOCS.len())) } else { None }, vec![rng.below(KEYS.len())])) } else { None },
                 },
                 3 | 4 if n_gates > 0 => Node::Suspense { gate: rng.below(n_gates), key: rng.below(KEYS.len()) },
                 _ => Node::Text { key: rng.below(KEYS.len()) },
@@ -282,7 +294,15 @@ pub fn generate(rng: &mut Rng) -> Plan {
             under_suspense: rng.chance(1, 6),
             eager: if n_gates > 0 && rng.chance(1, 4) { Some((rng.below(EAGER_KEYS.len()), rng.below(n_gates))) } else { None },
             manual: false,
+            lazy_set: None,
         });
+        if rng.chance(1, 6) {
+            // a locale change made while rendering: the run-once access is left out (whether its single read comes
+            // before or after that change is Leptos' business, not the property's)
+            let r = requests.last_mut().unwrap();
+            r.lazy_set = Some(rng.below(LOCS.len()));
+            r.eager = None;
+        }
         if rng.chance(1, 5) {
             // hand-written integration: synchronous rendering, so no Suspense in the page
             let r = requests.last_mut().unwrap();
@@ -329,7 +349,7 @@ struct ResponseState {
 }
 
 fn page_view(r: Request, gates: Vec<Gate>, set_cookies: Arc<Mutex<ResponseState>>) -> impl IntoView {
-    let Request { page, cookie, accept, provider, under_suspense, eager, .. } = r;
+    let Request { page, cookie, accept, provider, under_suspense, eager, lazy_set, .. } = r;
     let copts = {
         let sc = set_cookies.clone();
         CookieOptions::<Locale>::default().ssr_cookies_header_getter(move || Some(cookie.clone())).ssr_set_cookie(move |c| {
@@ -345,6 +365,16 @@ fn page_view(r: Request, gates: Vec<Gate>, set_cookies: Arc<Mutex<ResponseState>
     let gates2 = gates.clone();
     let children = move || {
         let mut out: Vec<AnyView> = vec![];
+        if let Some(l) = lazy_set {
+            let i18n = use_i18n();
+            out.push(
+                (move || {
+                    i18n.set_locale(loc(l));
+                    view! { <span data-lazy="1"></span> }
+                })
+                .into_any(),
+            );
+        }
         for (n, node) in page.iter().enumerate() {
             // every node looks its context up when it is constructed, as a component would
             let i18n = use_i18n();
@@ -691,6 +721,9 @@ fn resolve(r: &Request) -> usize {
             return l;
         }
     }
+    if let Some(l) = crate::common::audited_best_match(accept) {
+        return l;
+    }
     let list: Vec<String> = accept.split(',').map(|e| e.split(';').next().unwrap_or("").trim().to_string()).filter(|e| !e.is_empty()).collect();
     loc_index(<Locale as leptos_i18n::Locale>::find_locale(&list))
 }
@@ -707,15 +740,16 @@ struct Expect {
 
 fn expect(r: &Request) -> Expect {
     let initial = resolve(r);
-    // every set runs while the page is being constructed, before anything is rendered
-    let main_locale = r.page.iter().rev().find_map(|n| if let Node::Set { l } = n { Some(*l % 5) } else { None }).unwrap_or(initial);
+    // every `Set` node runs while the page is being constructed, before anything is rendered; a lazily built first child
+    // sets its locale when rendering starts, before any text of the main context is produced
+    let main_locale = r.lazy_set.map(|l| l % LOCS.len()).unwrap_or_else(|| r.page.iter().rev().find_map(|n| if let Node::Set { l } = n { Some(*l % LOCS.len()) } else { None }).unwrap_or(initial));
     let mut must = BTreeSet::new();
     let mut may = BTreeSet::new();
     let mut texts = vec![];
     let mut current = initial;
     for (n, node) in r.page.iter().enumerate() {
         match node {
-            Node::Set { l } => current = *l % 5,
+            Node::Set { l } => current = *l % LOCS.len(),
             Node::Text { key } => {
                 let k = KEYS[*key % KEYS.len()];
                 must.insert((LOCS[main_locale].to_string(), k.0.to_string()));
@@ -723,7 +757,7 @@ fn expect(r: &Request) -> Expect {
             }
             Node::Sub { init, keys, inner } => {
                 // created during construction: explicit initial locale, else the parent's locale at that moment
-                let l = init.map(|l| l % 5).unwrap_or(current);
+                let l = init.map(|l| l % LOCS.len()).unwrap_or(current);
                 for (j, key) in keys.iter().enumerate() {
                     let k = KEYS[*key % KEYS.len()];
                     must.insert((LOCS[l].to_string(), k.0.to_string()));
@@ -731,7 +765,7 @@ fn expect(r: &Request) -> Expect {
                 }
                 if let Some((iinit, ikeys)) = inner {
                     // the nested sub-context's parent is the enclosing sub-context, not the page's main context
-                    let il = iinit.map(|l| l % 5).unwrap_or(l);
+                    let il = iinit.map(|l| l % LOCS.len()).unwrap_or(l);
                     for (j, key) in ikeys.iter().enumerate() {
                         let k = KEYS[*key % KEYS.len()];
                         must.insert((LOCS[il].to_string(), k.0.to_string()));
@@ -984,7 +1018,7 @@ pub fn handle(req: &Value) -> Value {
             let tag_end = html[p..].find('>').map(|e| e + p).unwrap_or(html.len());
             let tag = &html[p..tag_end];
             let want = format!("lang=\"{}\"", LOCS[exp.main_locale]);
-            let has_set = r.page.iter().any(|n| matches!(n, Node::Set { .. }));
+            let has_set = r.lazy_set.is_some() || r.page.iter().any(|n| matches!(n, Node::Set { .. }));
             if r.sets_lang() {
                 if tag.contains(&want) {
                     *probes.entry("html_lang_checked".into()).or_default() += 1;
@@ -999,6 +1033,15 @@ pub fn handle(req: &Value) -> Value {
                 }
             } else if tag.contains("lang=") {
                 violations.push(Violation { property: "C15", invariant: "html_lang", signature: "<html lang> is set although set_lang_attr_on_html=false".into(), detail: format!("request {i}: {tag:?}") });
+            }
+            let want_dir = format!("dir=\"{}\"", crate::fixture::dir_of(LOCS[exp.main_locale]));
+            if r.sets_dir() && tag.contains("dir=") && !tag.contains(&want_dir) {
+                violations.push(Violation {
+                    property: if has_set { "C16" } else { "C15" },
+                    invariant: "html_lang",
+                    signature: "<html dir> is not the text direction of the page's locale".into(),
+                    detail: format!("request {i}: {tag:?}, expected {want_dir} for {}", LOCS[exp.main_locale]),
+                });
             }
             if r.sets_dir() != tag.contains("dir=") {
                 violations.push(Violation {
